@@ -445,7 +445,60 @@ def rule_u9(ctx, facts):
     return n
 
 
+def rule_u10(ctx, facts):
+    """unwinding out of a caller-supplied closure does not panic again: no value dropped on the cleanup path from the closure call to
+    `resume` has a `Drop` impl (of a crate type) that can panic -- an assertion in a scope guard / "drop bomb" that is alive while the
+    closure runs turns the caller's panic into a process abort (panic in a destructor during cleanup).  A Drop impl that asks
+    `std::thread::panicking()` is taken to stand down while unwinding."""
+    from .rules_c19 import is_panic
+    cg = callgraph(facts)
+    panicky = {}
+    for b in facts.bodies:
+        if not (b.impl and b.impl.get("trait") in ("std::ops::Drop", "core::ops::Drop")):
+            continue
+        hit = None
+        stands_down = False
+        for rid in [b.id] + sorted(cg.reachable(b.id)):
+            rb = facts.by_id.get(rid)
+            if rb is None:
+                continue
+            for c in rb.calls:
+                if callee_str(c).endswith("thread::panicking"):
+                    stands_down = True
+                if is_panic(c) and not rb.is_cleanup(c.b) and hit is None:
+                    hit = "%s at %s" % (callee_str(c).rsplit("::", 2)[-1], c.span)
+            for bi in range(len(rb.blocks)):
+                t = rb.term(bi)
+                if t["k"] == "assert" and not rb.is_cleanup(bi) and hit is None and not t.get("overflow_check"):
+                    pass
+        if hit and not stands_down:
+            panicky[b.impl["self_head"]] = hit
+    n = 0
+    for b in facts.bodies:
+        for c in b.calls:
+            if not user_closure_call(c) or b.is_cleanup(c.b):
+                continue
+            t = b.term(c.b)
+            if not isinstance(t.get("unwind"), int):
+                continue
+            n += 1
+            r = reach(b, [Point(t["unwind"], 0)])
+            bad = None
+            for bi in range(len(b.blocks)):
+                tt = b.term(bi)
+                if tt["k"] == "drop" and b.term_point(bi) in r and (tt.get("ty") or {}).get("base") in panicky:
+                    bad = (tt["span"], tt["ty"]["base"], panicky[tt["ty"]["base"]])
+            ctx.inst("U10", b, "no second panic while unwinding out of the callback at %s" % c.span.split(":", 1)[1], c.span, bad is None,
+                     "no value dropped on the cleanup path has a Drop impl that can panic" if bad is None else
+                     "if the closure called at %s panics, unwinding drops a %s (%s) whose Drop can panic (%s): a panic while unwinding aborts the "
+                     "process instead of passing the caller's panic on" % (c.span, bad[1], bad[0], bad[2]))
+    if n < 2:
+        ctx.fail_closed("U10: expected at least the two callback sites of compute_if_present, found %d" % n)
+
+
 def run(ctx, facts):
+    ctx.rule("U10", "unwinding out of a caller-supplied closure cannot panic again: no drop glue on the cleanup path belongs to a Drop impl that can panic (no drop bomb alive across the callback)", floor=2)
+    rule_u10(ctx, facts)
     ctx.rule("U9", "a caught panic of a caller-supplied closure (catch_unwind) is followed by no write, retire, unlink or count adjustment before it is re-raised", floor=0)
     rule_u9(ctx, facts)
     ctx.rule("U8", "unwinding out of a caller-supplied closure retires, frees and writes nothing (no effectful drop glue on the cleanup path)", floor=2)
